@@ -353,18 +353,56 @@ def run(report, index, tier):
              'with charset abc, skip {a, c, ab}',
              'yields %s, expected %s' % (ys[:8], want[:8]),
              where='handlers/obfuscation.py:NameGenerator.__iter__')
-    fin = need_function(obf, 'finalize', 'Obfuscator')
-    r3.check('NameGenerator(skip=self.reserved_keywords)' in
-             ast.unparse(fin), 'finalize seeds the generator with the '
-             'reserved words', 'Obfuscator.finalize',
-             'the name generator is not created with '
-             'skip=self.reserved_keywords',
-             where='handlers/obfuscation.py:Obfuscator.finalize')
+    # finalize seeds the generator with the reserved words, and generators
+    # derived for a scope keep them (both by evaluating the source)
+    ng_init = ng.get('__init__')
     ngcall = ng.get('__call__')
-    r3.check(ngcall is not None and 'set(self.skip)' in ast.unparse(ngcall),
+    if ng_init is None or ngcall is None:
+        raise AnalysisError('NameGenerator.__init__ / __call__ vanished')
+
+    def mk_generator(*args, **kw):
+        o = Obj('NameGenerator')
+        e2 = Evaluator(obf, 'NameGenerator', ng, {
+            'iter': lambda x: iter(())}, max_steps=10000)
+        e2.call(ng_init, list(args), kw, self_obj=o)
+        return o
+    fin = need_function(obf, 'finalize', 'Obfuscator')
+    seen = []
+    gscope = Obj('Scope', close=('pyfunc', lambda: None),
+                 build_remap_symbols=('pyfunc', lambda g, **kw: seen.append(
+                     (g, kw))))
+    oself = Obj('Obfuscator', global_scope=gscope,
+                reserved_keywords=('do', 'if'), obfuscate_globals=False)
+    ev = Evaluator(obf, 'Obfuscator', obf.class_methods('Obfuscator'),
+                   {'NameGenerator': mk_generator}, max_steps=10000)
+    try:
+        ev.call(fin, [], self_obj=oself)
+    except Raised as e:
+        seen = 'raises %s' % e.text
+    ok = isinstance(seen, list) and len(seen) == 1 and isinstance(
+        seen[0][0], Obj) and seen[0][0].has('skip') and {'do', 'if'} <= set(
+        seen[0][0].skip)
+    r3.check(ok, 'finalize seeds the generator with the reserved words',
+             'Obfuscator.finalize', 'the name generator handed to '
+             'build_remap_symbols does not skip the reserved words '
+             '(observed: %r)' % (seen if not isinstance(seen, list) else [
+                 (sorted(g.skip) if isinstance(g, Obj) and g.has('skip')
+                  else g, kw) for g, kw in seen],),
+             where='handlers/obfuscation.py:Obfuscator.finalize')
+    base = mk_generator(skip=('do', 'if'))
+    ev = Evaluator(obf, 'NameGenerator', ng, {
+        'type': lambda o: ('pyfunc', mk_generator)}, max_steps=10000)
+    try:
+        derived, _ = ev.call(ngcall, [{'x'}], self_obj=base)
+        dskip = set(derived.skip) if isinstance(derived, Obj) and \
+            derived.has('skip') else None
+    except Raised as e:
+        dskip = 'raises %s' % e.text
+    r3.check(isinstance(dskip, set) and {'do', 'if', 'x'} <= dskip,
              'derived generators keep the reserved words',
              'NameGenerator.__call__', 'a generator derived for a scope '
-             'drops the skip set it was seeded with',
+             'skips %r; it must keep the reserved words it was seeded '
+             'with and add the names of the scope' % (dskip,),
              where='handlers/obfuscation.py:NameGenerator.__call__')
     # R07.5 ---------------------------------------------------------------
     r5 = report.rule('R07.5', 'reserved set of a scope covers free names '
